@@ -280,6 +280,10 @@ func runFullTraffic(c *Ctx, scAny any) {
 		if sc.Seed%2 == 0 && !strings.EqualFold(cp.Transport, "cdn") {
 			sp.BindAddrs = []string{srvAddr, "10.0.0.2:8443"}
 			cp.RemotePort = "8443"
+		} else if (sc.Seed>>6)%2 == 0 {
+			// started by Shadowsocks as a plugin (SS_* environment)
+			sp.PluginMode = true
+			sp.ProxyBook = map[string][]string{"shadowsocks": {"tcp", "10.0.0.3:8388"}}
 		}
 	}
 	w := NewSrvWorld(c, sp)
